@@ -3,6 +3,7 @@ package sym
 import (
 	"fmt"
 	"io"
+	"os"
 	"go/types"
 	"sort"
 	"strings"
@@ -66,6 +67,8 @@ type Engine struct {
 	lockHook   func(st *State, kind string, p *PtrV)
 	deadline   time.Time
 	uniqueTab  []uniqueEnt
+	progress   bool
+	lastTick   time.Time
 }
 
 type abortErr struct {
@@ -95,6 +98,7 @@ func NewEngine(prog *ssa.Program, cfg Config, scratch string) (*Engine, error) {
 	e.stats.Functions = map[string]int{}
 	e.cryptoTabs = newCryptoState()
 	e.j2 = newJ2State()
+	e.progress = os.Getenv("GOSYM_PROGRESS") != ""
 	return e, nil
 }
 
